@@ -352,8 +352,12 @@ impl Args {
 fn escaped_panic(m: &mut Mon, msg: String) {
     let in_harness = msg.contains("@ src/") || msg.contains("/verif/") || msg.contains("harness/src");
     if in_harness {
+        // a bug of the harness itself (generator / bookkeeping), not an observation about the library: this shard stops
+        // here and reports what it had observed so far; run.py refuses a verdict if too many shards end like this
         eprintln!("harness panic: {}", msg);
-        std::process::exit(101);
+        m.notes.push(format!("shard aborted early by a harness panic: {}", msg));
+        m.count("harness_panic_shard_aborted");
+        return;
     }
     m.notes.push("driver aborted early by an unguarded library panic".to_string());
     let mm = msg.clone();
